@@ -390,5 +390,77 @@ def body(case):
     return out
 
 
+def gen_bound(r):
+    d = G.hostile_doc(r, 3)
+    p = G.guided_path(r, d, max_len=3, miss=8)
+    c = r.pct()
+    if c < 45:
+        d2 = G.twinned(r, d, 50)  # == d, types differ
+    elif c < 85:
+        # same keys / lengths, some scalar values changed
+        def perturb(x):
+            if isinstance(x, dict):
+                return {k: perturb(v) for k, v in x.items()}
+            if isinstance(x, list):
+                return [perturb(v) for v in x]
+            return G.hostile_scalar(r) if r.pct() < 40 else x
+        d2 = perturb(d)
+    else:
+        d2 = G.hostile_doc(r, 3)
+    return p, d, d2, r.coin(), r.coin()
+
+
+def body_bound(case):
+    """Paths bound to a document (source_data=...): if two bound paths compare equal they
+    must select the same nodes."""
+    path, d1, d2, wrap1, wrap2 = case
+    out = Outcome()
+    ns = build.ns()
+    W = ns.da.Data
+    try:
+        a = build.build_path(path, source_data=W(d1) if wrap1 else d1)
+        b = build.build_path(path, source_data=W(d2) if wrap2 else d2)
+        a2 = build.build_path(path, source_data=W(d1) if wrap1 else d1)
+    except Exception as e:
+        out.exc("build", e)
+        return out
+    try:
+        eq_ab, eq_ba, eq_aa = a == b, b == a, a == a2
+    except Exception as e:
+        out.exc("equality-raised", e)
+        return out
+    if eq_ab is not eq_ba:
+        out.add("symmetric", "symmetric|bound-path", f"a==b is {eq_ab}, b==a is {eq_ba}")
+    if eq_aa is not True:
+        out.add("copies-equal", "copies-equal|bound-path", "two paths bound to the same document compare unequal")
+
+    def beh(p):
+        # compared with Python's own == (the bound documents are compared with == by the
+        # library, so 1 / True / 1.0 in the documents are not told apart here either)
+        try:
+            return ("ok", p.get_data(return_paths=True))
+        except Exception as e:
+            return ("raised", type(e).__name__)
+
+    if d1 == d2 and exact(d1) != exact(d2):
+        # the two bound documents are equal by Python's == but not type-exactly (1 / True / 1.0):
+        # the library compares bound documents with ==, and the statement's atoms do not include
+        # the bound document, so nothing is asserted for such pairs
+        out.label("twin-bound-docs-not-asserted")
+        return out
+    ba, bb = beh(a), beh(b)
+    differ = ba != bb
+    if eq_ab is True and differ:
+        out.add("equal-implies-same-behaviour", "equal-implies-same-behaviour|bound-path",
+                f"paths bound to {show(d1,120)} and {show(d2,120)} compare equal but select {show(ba,120)} vs {show(bb,120)}")
+    out.nontrivial = differ
+    out.label("bound-docs-equal-by-==" if d1 == d2 else "bound-docs-differ", "wrapped" if (wrap1 or wrap2) else "raw")
+    out.sample = f"{show(path,250)} bound to {show(d1,150)} / {show(d2,150)}"
+    return out
+
+
 def tests(tier):
-    return [TestSpec("equality", gen_case, body, {"quick": 4000, "thorough": 400000}, tape=2048, fuzz={"thorough": 40000})]
+    return [
+        TestSpec("equality", gen_case, body, {"quick": 4000, "thorough": 400000}, tape=2048, fuzz={"thorough": 40000}),
+        TestSpec("bound-paths", gen_bound, body_bound, {"quick": 800, "thorough": 60000}, tape=1536, fuzz={"thorough": 20000}),
+    ]
